@@ -50,7 +50,8 @@ theorem dep_refines {c : CW} {s : WS} (hi : Inv c) (hr : Rel c s) (comp : CompId
       buffers := hr.buffers
       marked := hr.marked
       markedLt := hr.markedLt
-      markedNodup := hr.markedNodup }
+      markedNodup := hr.markedNodup
+      markedOld := hr.markedOld }
 
 /-! ## the marked set -/
 
@@ -249,6 +250,10 @@ theorem destroy_unlocked_refines {c : CW} {s : WS} (hi : Inv c) (hb : Bounds c) 
       { len := hr.len, ents := hr.ents, deps := hr.deps, lockDepth := hr.lockDepth, nthreads := hr.nthreads
         buffers := hr.buffers
         markedNodup := nodup_insertNat hr.markedNodup k
+        markedOld := by
+          intro o _ h _
+          show h ∉ createHandles w.buffers
+          rw [hch]; simp
         markedLt := by
           intro o hom
           rcases (mem_insertNat _ _ _).mp hom with rfl | h
